@@ -149,6 +149,96 @@ class _ReturnToRaise(ast.NodeTransformer):
         return ast.copy_location(ast.Raise(exc=node.value, cause=None), node)
 
 
+class _Fold(ast.NodeTransformer):
+    """Folds what parameter substitution made constant: `None is None`, `<literal> is not None`, `not True`, `True and x`,
+    `if False: ...`, `a if True else b` (a helper with a defaulted parameter, specialised to one call)."""
+
+    @staticmethod
+    def _lit(n):
+        """('none',) / ('notnone',) / ('bool', v) for expressions whose None-ness / truth is known, else None"""
+        if isinstance(n, ast.Constant):
+            if n.value is None:
+                return ("none",)
+            if isinstance(n.value, bool):
+                return ("bool", n.value)
+            return ("notnone",)
+        if isinstance(n, (ast.List, ast.Tuple, ast.Dict, ast.Set, ast.ListComp, ast.DictComp, ast.SetComp, ast.GeneratorExp, ast.Lambda, ast.JoinedStr)):
+            return ("notnone",)
+        return None
+
+    def visit_FunctionDef(self, node):
+        return node
+
+    def visit_Lambda(self, node):
+        return node
+
+    def visit_Compare(self, node):
+        self.generic_visit(node)
+        if len(node.ops) == 1 and isinstance(node.ops[0], (ast.Is, ast.IsNot)):
+            a, b = self._lit(node.left), self._lit(node.comparators[0])
+            if a and b and a[0] in ("none", "notnone") and b[0] == "none":
+                val = (a[0] == "none") == isinstance(node.ops[0], ast.Is)
+                return ast.copy_location(ast.Constant(value=val), node)
+            if a and b and a[0] == "none" and b[0] == "notnone":
+                return ast.copy_location(ast.Constant(value=isinstance(node.ops[0], ast.IsNot)), node)
+        return node
+
+    def visit_UnaryOp(self, node):
+        self.generic_visit(node)
+        if isinstance(node.op, ast.Not) and isinstance(node.operand, ast.Constant) and isinstance(node.operand.value, bool):
+            return ast.copy_location(ast.Constant(value=not node.operand.value), node)
+        return node
+
+    def visit_BoolOp(self, node):
+        self.generic_visit(node)
+        vals = list(node.values)
+        is_and = isinstance(node.op, ast.And)
+        out = []
+        for v in vals:
+            if isinstance(v, ast.Constant) and isinstance(v.value, bool):
+                if v.value == is_and:
+                    continue  # neutral element
+                out.append(v)  # absorbing element: nothing after it is evaluated
+                break
+            out.append(v)
+        if not out:
+            return ast.copy_location(ast.Constant(value=is_and), node)
+        if len(out) == 1:
+            return out[0]
+        if isinstance(out[0], ast.Constant) and isinstance(out[0].value, bool):
+            return out[0]
+        node.values = out
+        return node
+
+    def visit_IfExp(self, node):
+        self.generic_visit(node)
+        if isinstance(node.test, ast.Constant) and isinstance(node.test.value, bool):
+            return node.body if node.test.value else node.orelse
+        return node
+
+    def visit_If(self, node):
+        self.generic_visit(node)
+        if isinstance(node.test, ast.Constant) and isinstance(node.test.value, bool):
+            taken = node.body if node.test.value else node.orelse
+            return taken or [ast.copy_location(ast.Pass(), node)]
+        return node
+
+
+def fold_block(stmts):
+    out = []
+    f = _Fold()
+    for st in stmts:
+        r = f.visit(st)
+        if isinstance(r, list):
+            out.extend(r)
+        elif r is not None:
+            out.append(r)
+    # drop `pass` statements that folding left between other statements
+    if len(out) > 1:
+        out = [st for st in out if not isinstance(st, ast.Pass)] or [out[0]]
+    return out
+
+
 class Inliner(object):
     MAX_DEPTH = 3
 
@@ -258,7 +348,13 @@ class Inliner(object):
                 m2[p] = ast.Name(id=tmp, ctx=ast.Load())
             else:
                 m2[p] = v
-        rename = {n: n + tag for n in stored if n not in mapping}
+        imported = set()
+        for st in body:
+            for n_ in ast.walk(st):
+                if isinstance(n_, (ast.Import, ast.ImportFrom)):
+                    for a_ in n_.names:
+                        imported.add((a_.asname or a_.name).split(".")[0])
+        rename = {n: n + tag for n in stored if n not in mapping and n not in imported}
         if cand.module is not fi.module:
             rename.update(self.harmonise(fi, cand, body, stored, set(mapping)))
         for p in mapping:
@@ -266,7 +362,7 @@ class Inliner(object):
                 rename[p] = p + tag
         sub = _Subst({k: v for k, v in m2.items() if k not in rename}, rename)
         new_body = [sub.visit(s) for s in body]
-        return pre + new_body
+        return pre + fold_block(new_body)
 
     def harmonise(self, fi, cand, body, stored, params):
         """A helper of another module is expanded in the caller's module: every global name its body reads must denote
@@ -626,6 +722,10 @@ def normalise(idx):
         except RecursionError:
             pass
         fi.node = n
+        # import statements that moved in with a helper's body bind names in this function now
+        for x in idx._iter_own_nodes(n):
+            if isinstance(x, (ast.Import, ast.ImportFrom)):
+                idx._import_bindings(fi.module, x, fi.local_bindings)
     for cand, cnt in inl.inlined_calls.items():
         if cnt and not inl.kept_calls.get(cand):
             cand.absorbed = True
